@@ -133,6 +133,9 @@ def write(handle:IO, anno:GenomicAnnotation) -> None:
             records = tx_model.cds + tx_model.exon
             records.sort()
             records.extend(tx_model.utr)
+            records.extend(x for x in tx_model.five_utr + tx_model.three_utr
+                if not any(x is y for y in tx_model.utr))
+            records.extend(tx_model.start_codon + tx_model.stop_codon)
             records = tx_model.selenocysteine + records
             for record in records:
                 handle.write(to_gtf_record(record) + '\n')
